@@ -756,12 +756,9 @@ def obligations(tier, seed):
         for si, st in enumerate(states):
             hists = sg[st] if tier == "thorough" else sg[st][-1:]
             for hi, base in enumerate(hists):
-                if tier == "quick":
-                    # stride over the alphabet, rotated by state index and seed
-                    k = 3
-                    sel = [alpha[(si * 7 + seed + j * (len(alpha) // k + 1)) % len(alpha)] for j in range(k)]
-                else:
-                    sel = alpha
+                # stride over the alphabet, rotated by state index and seed
+                k = 3 if tier == "quick" else 16
+                sel = [alpha[(si * 7 + seed + j * (len(alpha) // k + 1)) % len(alpha)] for j in range(k)]
                 # group several ops per obligation is not possible (each changes the state): one op each,
                 # but pack ops that the model rejects or that leave the state unchanged together
                 for op in sel:
@@ -771,7 +768,7 @@ def obligations(tier, seed):
 
         out.extend(detours(alpha, uni, weighted, rng, 14 if tier == "quick" else 80))
         # (iii) seeded longer histories
-        n_long = 16 if tier == "quick" else 400
+        n_long = 16 if tier == "quick" else 120
         for _ in range(n_long):
             L = rng.randint(4, 6)
             out.append({"family": "hist", "layer": "seeded", "universe": uni, "weighted": weighted,
@@ -807,8 +804,8 @@ META = {
                  "every abstract state (node set, hyperedge set) reachable over the universe x 3 ops (stride), "
                  "16 seeded histories of length 4-6; weighted and unweighted; all weights, metadata values and "
                  "the order/size filter value are unbounded symbolic integers",
-        "thorough": "universes {0,1,2} and {'a','b','c'}; every abstract state x two histories x the full alphabet; "
-                    "400 seeded histories of length 4-6 per configuration",
+        "thorough": "universes {0,1,2} and {'a','b','c'}; every abstract state x two histories x 16 ops (stride); "
+                    "80 detours and 120 seeded histories of length 4-6 per configuration",
     },
     "stand_ins": [],
     "outside_claim": [
